@@ -266,6 +266,31 @@ XorExpect(c, o) ==
           /\ o.ncaught = 0
           /\ c.ctx # "fold_body" => (Class(o.u_code) = "uncatch" /\ o.c_first_err = o.u_code)
 
+\* C25: content ids.  (a) canonical: the id of a value does not depend on the route by which the value was built
+\* and differs from the id of another value; (b) verification decision table: accepted iff the id is a json-codec
+\* CIDv1 whose full sha2-256 or blake3-256 digest is the digest of the value's canonical bytes.
+CidRoutes == {"direct", "reparsed", "pretty_reparsed", "reversed_insertion", "forward_insertion", "via_std_value"}
+CidMutations == {"exact_blake3", "exact_sha2", "sha3_code", "identity_code", "truncated_blake3", "truncated_sha2", "bitflip",
+                 "first_bitflip", "other_value", "codec_raw", "codec_cbor", "garbage", "empty", "swapped_hash_code"}
+CidCases == {[family |-> "cid", kind |-> "canon", value |-> v, route |-> r, mutation |-> ""] : v \in 0..7, r \in CidRoutes}
+            \cup {[family |-> "cid", kind |-> "verify", value |-> v, route |-> "", mutation |-> m] : v \in 0..7, m \in CidMutations}
+CidAccepts(m) == m \in {"exact_blake3", "exact_sha2"}
+CidExpect(c, o) ==
+    IF c.kind = "canon" THEN o.same_as_direct /\ o.differs_from_other /\ o.matches_independent
+    ELSE LET want == IF CidAccepts(c.mutation) THEN "accept" ELSE "reject" IN o.typed = want /\ o.raw = want
+
+\* C27 (table part): a call-request / call-result payload decodes exactly iff it carries the right codec tag and an
+\* intact body; the versions of an envelope are readable iff the outer encoding is intact, whatever the inner data
+CodecCases == {[family |-> "codec", payload |-> p, tag |-> t, body |-> b, outer |-> "", inner |-> ""] :
+                   p \in {"requests", "results"}, t \in {"right", "json", "cbor", "absent", "truncated", "empty"}, b \in {"ok", "corrupt"}}
+              \cup {[family |-> "codec", payload |-> "envelope", tag |-> "", body |-> "", outer |-> ou, inner |-> inn] :
+                   ou \in {"ok", "corrupt"}, inn \in {"ok", "corrupt"}}
+CodecExpect(c, o) ==
+    IF c.payload = "envelope" THEN
+        /\ o.versions_readable = (c.outer = "ok")
+        /\ o.decodes = (c.outer = "ok" /\ c.inner = "ok")
+    ELSE o.decoded_exactly = (c.tag = "right" /\ c.body = "ok")
+
 RunScriptCases == {[family |-> "runscript", script |-> s] : s \in ScriptSpace}
 RunScriptExpect(c, o) == o.exec_died = ""
 TextExpect(c, o) == o.parse # "panic" /\ o.beautify # "panic" /\ o.exec_died = ""
@@ -276,6 +301,8 @@ Cases ==
       [] Family = "text" -> TextCases
       [] Family = "runscript" -> RunScriptCases
       [] Family = "xor" -> XorCases
+      [] Family = "cid" -> CidCases
+      [] Family = "codec" -> CodecCases
       [] Family = "bytes" -> ByteCases
       [] Family = "limits" -> LimitCases
       [] Family = "lens" -> LensCasesNorm
@@ -291,6 +318,8 @@ Expect(c, o) ==
       [] c.family = "text" -> TextExpect(c, o)
       [] c.family = "runscript" -> RunScriptExpect(c, o)
       [] c.family = "xor" -> XorExpect(c, o)
+      [] c.family = "cid" -> CidExpect(c, o)
+      [] c.family = "codec" -> CodecExpect(c, o)
       [] c.family = "bytes" -> BytesExpect(c, o)
 
 \* --- enumeration: every case is an initial state
